@@ -271,7 +271,9 @@ func c27ChannelsCodecs() []*kit.Codec {
 			{CommittedRead: CommittedRead{ChannelID: ch.ChannelID{Type: 255}, Request: channelstore.ReadCommittedRequest{FromSeq: math.MaxUint64, MaxSeq: 128, Limit: -1, MaxBytes: math.MaxInt}},
 				ExpectedLeader: 128, ExpectedMinISR: -1}}}},
 	}
-	encReads := func(v CommittedReadsRequest) ([]byte, error) { return encodeCommittedReadsRequestVersion(v, codecVersion) }
+	encReads := func(v CommittedReadsRequest) ([]byte, error) {
+		return encodeCommittedReadsRequestVersion(v, codecVersion)
+	}
 	out = append(out, c27Legacy(c27Codec("CommittedReadsRequest", kindCommittedReads, false, encReads, decodeCommittedReadsRequest, readReqs), encodeCommittedReadsRequestVersion, readReqs[2:]))
 
 	readResps := []c27Named[CommittedReadsResponse]{
